@@ -98,6 +98,8 @@ class EroWorld(World):
             return self.tables[name]
         if name == "nodes_indices_bottomup":
             return PyVec([NODE])
+        if name == "single_flow":
+            return True         # (only consulted by set_slope_exp, whose rejection rule is C12-V1)
         return NOT_HANDLED
 
     def external(self, it, fn, call, frame):
@@ -286,6 +288,11 @@ def run(db, chk):
                                      "m_slope_exp": 1.0 if linear else 1.7, "m_tolerance": 1e-3,
                                      "m_linear": linear})
                     try:
+                        # whatever else the setter derives from the exponent (beyond m_linear) is
+                        # computed by the library's own setter
+                        sse = [f for f in er.unit.fns.values() if f.cls == SPL and f.name == "set_slope_exp"]
+                        if sse:
+                            it.call_fn(sse[0], this, [1.0 if linear else 1.7])
                         it.call_fn(er, this, [Sym("elevarray", "elev"), Sym("area", "A"), 1.0])
                         w.status = "ok"
                     except LoopBound:
@@ -352,4 +359,9 @@ def run(db, chk):
     chk.absorb(db, "C16", {"C16-T1"}, "C12-V4", "a graph snapshot the eroder may be run on carries the receivers, "
                "their distances and weights of the source graph (shared with C16-T1): a stale distance makes the "
                "stream-power factor negative", pred=lambda o: "m_receivers" in o["instance"], min_instances=3)
+    chk.absorb(db, "C13", {"C13-Q3"}, "C12-V6", "with zero erodibility or a zero time step the erosion is exactly 0, not "
+               "NaN, for every exponent class (shared with C13-Q3)", min_instances=10)
+    chk.absorb(db, "C05", {"C05-M1"}, "C12-V5", "base levels, masked nodes and pits are recognisable by the eroder: the "
+               "multiple-direction router leaves them a single self receiver (count one) at every update (shared "
+               "with C05-M1)", min_instances=100)
     chk.count_scenarios(n_sc, False)
